@@ -134,7 +134,7 @@ func TestC12(t *testing.T) {
 func TestC13(t *testing.T) {
 	o := poolOpts
 	o.Bursts = false
-	o.Weights = map[string]int{"exec": 10, "xexec": 18, "xtick": 12, "tick": 6, "hb": 4, "reqbatch": 14, "relay": 10, "send": 36}
+	o.Weights = map[string]int{"exec": 10, "xexec": 18, "xtick": 12, "tick": 6, "hb": 4, "reqbatch": 14, "relay": 10, "send": 36, "xlag": 6}
 	o.EthTimeout = []uint64{60000, 150000}
 	o.Denoms = 3
 	(&pbt.Check{
